@@ -3,6 +3,7 @@ import core
 from core import Case, enc_b, psec
 
 OBLIGATIONS = ["Psec.Props.C19.tdes_ecb_dec_enc", "Psec.Props.C19.tdes_ecb_enc_dec", "Psec.Props.C19.tdes_cbc_dec_enc", "Psec.Props.C19.tdes_cbc_enc_dec", "Psec.Props.C19.tdes_reject", "Psec.Props.C19.aes_ecb_dec_enc", "Psec.Props.C19.aes_ecb_enc_dec", "Psec.Props.C19.aes_cbc_dec_enc", "Psec.Props.C19.aes_cbc_enc_dec", "Psec.Props.C19.aes_reject", "Psec.Props.C19.tdes_ecb_blockwise", "Psec.Props.C19.tdes_cbc_textbook", "Psec.Props.C19.aes_ecb_blockwise", "Psec.Props.C19.aes_cbc_textbook", "Psec.Props.C19.kcv_spec", "Psec.Props.C19.ref_lawful", "Psec.refTdes_laws", "Psec.refAes_laws", "Psec.Props.C19.ref_tdes_cbc_dec_enc", "Psec.Props.C19.ref_aes_cbc_dec_enc"]
+THOROUGH_MODULES = ["PsecModel.Tests"]
 TRUSTED_BASE = ["Lean 4.33 kernel", "hypothesis Ciphers.Lawful (block decryption inverts block encryption) for the cryptography package's TDES/AES",
                 "library model of Cipher(...).encryptor().update() on whole blocks (Cipher/Iface.lean), validated by this correspondence against the Lean reference TDES/AES",
                 "correspondence harness and compiled driver"]
